@@ -16,6 +16,7 @@ const (
 
 func init() {
 	register("C15", func(c *core.Ctx, tier string) {
+		skipEOFRefined(c, "C15.7b")
 		connReadEffects(c, "C15.10")
 		connWriteEffects(c, "C15.11")
 		errPolarity(c, "C15.9", "webtransport")
